@@ -79,10 +79,7 @@ func (h *NFSProcedureHandler) handleRemove(body io.Reader, reply *RPCReply, auth
 		h.server.logger.Printf("REMOVE: Successfully removed '%s' from '%s'", name, node.path)
 	}
 
-	dirPostAttrs, err := h.server.handler.GetAttr(node)
-	if err != nil {
-		return nfsErrorWithWcc(reply, mapError(err)), nil
-	}
+	dirPostAttrs := h.postOpAttrs(node, dirPreAttrs)
 
 	var buf bytes.Buffer
 	xdrEncodeUint32(&buf, NFS_OK)
@@ -194,10 +191,7 @@ func (h *NFSProcedureHandler) handleRmdir(body io.Reader, reply *RPCReply, authC
 		h.server.handler.dirCache.Invalidate(targetPath)
 	}
 
-	dirPostAttrs, err := h.server.handler.GetAttr(node)
-	if err != nil {
-		return nfsErrorWithWcc(reply, mapError(err)), nil
-	}
+	dirPostAttrs := h.postOpAttrs(node, dirPreAttrs)
 
 	var buf bytes.Buffer
 	xdrEncodeUint32(&buf, NFS_OK)
@@ -299,15 +293,8 @@ func (h *NFSProcedureHandler) handleRename(body io.Reader, reply *RPCReply, auth
 		return reply, nil
 	}
 
-	srcDirPostAttrs, err := h.server.handler.GetAttr(srcDir)
-	if err != nil {
-		return nfsErrorWithDoubleWcc(reply, mapError(err)), nil
-	}
-
-	dstDirPostAttrs, err := h.server.handler.GetAttr(dstDir)
-	if err != nil {
-		return nfsErrorWithDoubleWcc(reply, mapError(err)), nil
-	}
+	srcDirPostAttrs := h.postOpAttrs(srcDir, srcDirPreAttrs)
+	dstDirPostAttrs := h.postOpAttrs(dstDir, dstDirPreAttrs)
 
 	var buf bytes.Buffer
 	xdrEncodeUint32(&buf, NFS_OK)
